@@ -23,7 +23,7 @@ RULE = ('random queries over the C04/C05 domains with every combination of from_
 ASSUMPTIONS = ['Flask/Werkzeug test client is faithful to a real HTTP GET', 'the library functions themselves are judged by C04/C05/C08']
 N = {'quick': 150, 'thorough': 4000}
 SHARDS = {'quick': 16, 'thorough': 16}
-REQUIRED_COUNTERS = ['vincinv_requests', 'vincdir_requests', 'index_requests', 'trace_args_checked']
+REQUIRED_COUNTERS = ['same_numbers_other_angle_type', 'vincinv_requests', 'vincdir_requests', 'index_requests', 'trace_args_checked']
 TYPES = ['dd', 'dms', None]
 
 
@@ -206,6 +206,16 @@ def run_shard(spec, ctx):
         if i < 2:
             ctx.sample({'endpoint': ep, 'query': q})
         judge_request(ns, ctx, tr, client, ep, q)
+        if rnd.random() < 0.4:
+            # the same numbers again with another effective input / output angle type (valid only when they also read
+            # as the other notation; judge_request decides) and then the original once more
+            q2 = dict(q)
+            key = rnd.choice(['from_angle_type', 'to_angle_type', 'from_angle_type'])
+            cur = q.get(key, 'dd')
+            q2[key] = 'dms' if cur == 'dd' else 'dd'
+            judge_request(ns, ctx, tr, client, ep, q2)
+            judge_request(ns, ctx, tr, client, ep, q)
+            ctx.count('same_numbers_other_angle_type')
 
 
 def replay(case, ctx):
